@@ -253,6 +253,14 @@ def evaluate(case) -> Result:
                     w.peer_close(c)
                     gen[pi] += 1
                     conns[pi] = establish(pi)
+                elif fk == "reconnect-overlap":
+                    # the peer comes back (new inbound connection, CER/CEA done) before the node has noticed
+                    # that the old connection is dead; the old one is lost right afterwards
+                    newc = w.handshake_in(names[pi], auth=[4], ip=f"10.1.1.{pi + 1}", hbh=0x100 + pi + 8 * len(w.conns))
+                    w.peer_close(c)
+                    gen[pi] += 1
+                    conns[pi] = newc
+                    res.classes.append("fault:reconnect-overlap")
             elif kind == "ADV":
                 w.advance(ev[1])
             # threading application: answers are submitted by worker threads on their own
@@ -382,7 +390,7 @@ def shard_main(shard, nshards, tier, scale):
                    st.tuples(st.just("SUBMIT"), st.integers(0, 3)), st.tuples(st.just("SUBMIT"), st.integers(0, 3)),
                    st.tuples(st.just("SUBMIT_DIRECT"), st.integers(0, 3)),
                    st.tuples(st.just("SUBMIT_AGAIN"), st.integers(0, 3)), st.tuples(st.just("SUBMIT_AGAIN"), st.integers(0, 3)),
-                   st.tuples(st.just("FAULT"), st.integers(0, 2), st.sampled_from(["eof", "reset", "dpr", "dpr-close", "reconnect", "watchdog", "dwa", "dwa"])),
+                   st.tuples(st.just("FAULT"), st.integers(0, 2), st.sampled_from(["eof", "reset", "dpr", "dpr-close", "reconnect", "reconnect-overlap", "watchdog", "dwa", "dwa"])),
                    st.tuples(st.just("ADV"), st.sampled_from([1, 2, 4])))
 
     @st.composite
@@ -400,7 +408,7 @@ def shard_main(shard, nshards, tier, scale):
 
     # fault enumeration: one request, each fault kind at each point (before submit), then submit
     jobs = []
-    for fk in ("eof", "reset", "dpr", "dpr-close", "reconnect", None):
+    for fk in ("eof", "reset", "dpr", "dpr-close", "reconnect", "reconnect-overlap", None):
         for other_req in (False, True):
             for npeers in (1, 2):
                 ev_ = [["REQ", 0, 0]]
@@ -435,7 +443,7 @@ def run(tier, scale=1.0):
     for d in hyp.pool_run(shard_main, (tier, scale)):
         rec.merge(d)
     required = {"schedule-exploration": 1, "deviations:2": 1, "npeers:3": 1, "app:threading": 1, "fault:eof": 1, "fault:reset": 1, "fault:dpr": 1,
-                "fault:reconnect": 1, "watchdog-outstanding": 1, "dwa-after-dpr": 1, "handler-raised-then-submit": 1, "direct-send-message": 1, "out0:True": 1, "double-submission": 1, "equal-hbh-two-conns": 1, "reqs:4": 1}
+                "fault:reconnect": 1, "fault:reconnect-overlap": 1, "watchdog-outstanding": 1, "dwa-after-dpr": 1, "handler-raised-then-submit": 1, "direct-send-message": 1, "out0:True": 1, "double-submission": 1, "equal-hbh-two-conns": 1, "reqs:4": 1}
     return finish(rec, tier=tier, level=LEVEL, rule=RULE, assumptions=ASSUME, t0=t0,
                   required_classes=required)
 
